@@ -1174,6 +1174,20 @@ func TestMessages(t *testing.T) {
 						if !bytes.Equal(got, want) {
 							out.Emit(map[string]any{"msg": id, "problems": []string{fmt.Sprintf("gating:message-depends-on-previous-message:first-difference-at-%d (%d bytes after a 1.%d message, %d bytes alone)", firstDiff(got, want), len(got), v1, len(want))}})
 						}
+						// the same encoder recycled with Clear() between the two messages (a pooled encoder)
+						pooled := ttlv.NewTTLVEncoder()
+						pooled.Any(first)
+						pooled.Clear()
+						pooled.Any(second)
+						if got := pooled.Bytes(); !bytes.Equal(got, want) {
+							out.Emit(map[string]any{"msg": id, "problems": []string{fmt.Sprintf("gating:message-depends-on-message-before-clear:first-difference-at-%d (%d bytes after a cleared 1.%d message, %d bytes alone)", firstDiff(got, want), len(got), v1, len(want))}})
+						}
+						// and a third message of the first version after another Clear()
+						pooled.Clear()
+						pooled.Any(first)
+						if got, want := pooled.Bytes(), ttlv.MarshalTTLV(first); !bytes.Equal(got, want) {
+							out.Emit(map[string]any{"msg": id, "problems": []string{fmt.Sprintf("gating:message-depends-on-message-before-clear:third-message:first-difference-at-%d", firstDiff(got, want))}})
+						}
 					}()
 				}
 			}
